@@ -9,6 +9,7 @@ EvOK(e) ==
     [] e.e = "produced"    -> IsWord(e.h) /\ ValidCell(e.h)     \* closure clause; e.f names the API call
     [] OTHER -> FALSE
 Init == l = 1
-Next == l <= Len(Tr) /\ EvOK(Tr[l]) /\ l' = l + 1
+\* (the IF makes TLC evaluate EvOK as a plain expression instead of expanding it as an action)
+Next == l <= Len(Tr) /\ IF EvOK(Tr[l]) THEN l' = l + 1 ELSE FALSE
 Spec == Init /\ [][Next]_l
 =============================================================================
